@@ -315,6 +315,10 @@ func (q *OutQueue) waitEmptyQueue() error {
 
 func (q *OutQueue) addChunk(data []byte) error {
 
+	// The chunk outlives the Write call when that returns early with an error (it stays queued for
+	// retransmission), so it must not alias the caller's buffer.
+	data = append([]byte(nil), data...)
+
 	q.mutex.Lock()
 	q.out = append(q.out, &Packet{
 		SeqNo: q.NextSeqNo,
